@@ -380,6 +380,11 @@ var("C15", "cluster-close-indexed", "handlers/memcached/cluster/handler.go", "\t
 var("C15", "cluster-close-peeled", "handlers/memcached/cluster/handler.go", "\tvar err error\n\n\tfor _, node := range h.nodes {\n\t\tret := node.handler.Close()", "\tvar err error\n\tif len(h.nodes) == 0 {\n\t\treturn nil\n\t}\n\terr = h.nodes[0].handler.Close()\n\tfor i := 1; i <= len(h.nodes)-1; i++ {\n\t\tret := h.nodes[i].handler.Close()", "every element is still closed")
 var("C01", "sentinel-test-after-discard", "handlers/memcached/std/localComm.go", "\t\tif ioerr != nil {\n\t\t\treturn nil, 0, 0, ioerr\n\t\t}\n\t\treturn nil, 0, 0, err", "\t\tif ioerr != nil {\n\t\t\treturn nil, 0, 0, ioerr\n\t\t}\n\t\tif err == common.ErrKeyNotFound {\n\t\t\treturn nil, 0, 0, common.ErrKeyNotFound\n\t\t}\n\t\treturn nil, 0, 0, err", "the sentinel returned is the one the status was just compared with")
 var("C10", "sentinel-test-after-discard", "handlers/memcached/std/localComm.go", "\t\tif ioerr != nil {\n\t\t\treturn nil, 0, 0, ioerr\n\t\t}\n\t\treturn nil, 0, 0, err", "\t\tif ioerr != nil {\n\t\t\treturn nil, 0, 0, ioerr\n\t\t}\n\t\tif err == common.ErrKeyNotFound {\n\t\t\treturn nil, 0, 0, common.ErrKeyNotFound\n\t\t}\n\t\treturn nil, 0, 0, err", "the body is discarded before the status is compared with a sentinel")
+mut("C18", "pctl-div-19", "metrics/histograms.go", "idx := len(buf) * i / 20", "idx := len(buf) * i / 19", "R18.16")
+mut("C18", "pctl-loop-to-20", "metrics/histograms.go", "\tfor i := 1; i < 20; i++ {\n\t\tidx := len(buf) * i / 20", "\tfor i := 1; i <= 20; i++ {\n\t\tidx := len(buf) * i / 20", "R18.16")
+mut("C18", "pctl-999-rounding-up", "metrics/histograms.go", "idx = int(math.Floor(float64(len(buf)) * 99.9 / 100.0))", "idx = int(math.Ceil(float64(len(buf)) * 99.9 / 100.0))", "R18.16")
+mut("C18", "pctl-loop-to-23", "metrics/histograms.go", "\tfor i := 1; i < 20; i++ {\n\t\tidx := len(buf) * i / 20\n\t\tpctls[i] = buf[idx]", "\tfor i := 1; i < 24; i++ {\n\t\tidx := len(buf) * i / 24\n\t\tpctls[i] = buf[idx]", "R18.16")
+var("C18", "pctl-99-as-990-1000", "metrics/histograms.go", "idx := len(buf) * 99 / 100", "idx := len(buf) * 990 / 1000", "the same fraction")
 
 for prop, ms in sorted(M.items()):
     json.dump(ms, open(os.path.join(ROOT, "rendlint", "mutants", prop + ".json"), "w"), indent=1)
